@@ -571,6 +571,7 @@ func (s *service) verifyBlock(b dbft.Block[util.Uint256]) bool {
 	for _, tx := range coreb.Transactions {
 		inBlock[tx.Hash()] = struct{}{}
 	}
+	var oracleResponses map[uint64]struct{}
 	for _, tx := range coreb.Transactions {
 		for _, attr := range tx.GetAttributes(transaction.ConflictsT) {
 			h := attr.Value.(*transaction.Conflicts).Hash
@@ -580,6 +581,20 @@ func (s *service) verifyBlock(b dbft.Block[util.Uint256]) bool {
 					zap.Stringer("conflict", h))
 				return false
 			}
+		}
+		// The same goes for two responses to one oracle request.
+		for _, attr := range tx.GetAttributes(transaction.OracleResponseT) {
+			id := attr.Value.(*transaction.OracleResponse).ID
+			if _, ok := oracleResponses[id]; ok {
+				s.log.Warn("more than one response to an oracle request in proposed block",
+					zap.Stringer("hash", tx.Hash()),
+					zap.Uint64("request", id))
+				return false
+			}
+			if oracleResponses == nil {
+				oracleResponses = make(map[uint64]struct{})
+			}
+			oracleResponses[id] = struct{}{}
 		}
 	}
 
